@@ -228,6 +228,11 @@ func c08r2(c *an.Ctx) {
 			f := fieldOfSrc(b.Src)
 			spec, ok := frameSpecBits[f]
 			good := ok && b.Shift == int(spec[1]) && (b.Mask&spec[0]) == spec[0]
+			// a flag bit is set exactly when its flag is: no other test may decide it (a later arm of a switch on
+			// another flag would make the bits depend on each other)
+			if strings.ContainsAny(b.Src, "&!") {
+				good = false
+			}
 			c.Check(good, "AppendFrame | control byte field "+f, c.At(enc[0].At), b.String(), fmt.Sprintf("encoder packs %s, spec wants mask %#x shift %d for %s", b.String(), spec[0], spec[1], f))
 		}
 		c.Check(len(enc[0].Bits) == 3, "AppendFrame | control byte has exactly done, kind, control", c.At(enc[0].At), "", fmt.Sprintf("control byte fields: %v", enc[0].Bits))
